@@ -53,6 +53,14 @@ def run(tier, seed):
     os.makedirs(env_dir, exist_ok=True)
     os.environ["VERIF_SCRATCH_DIR"] = env_dir
     events = pipeline.drive(vdrive, "c20", stimuli, chunk=300)
+    # the replay must have died where the model says the process dies: an operation that is followed by a crash record and ran to
+    # its end means that the implementation has no such step any more - the binding between model and code is broken (exit 2)
+    ops_of = {s["id"]: s["ops"] for s in stimuli}
+    for e in events:
+        ops = ops_of[e["t"]]
+        if e["op"] in ("add", "clear") and e["i"] + 1 < len(ops) and ops[e["i"] + 1]["op"] == "crash" and not e["crashed"]:
+            raise common.Infra(f"the crash point {ops[e['i'] + 1]['point']} (occurrence {ops[e['i'] + 1]['nth']}) of the model was not reached by "
+                               f"{e['op']} in history {json.dumps(ops)[:400]}: the implementation does not perform that file-system step")
     res = pipeline.accept(SPEC, "ReplStoreTrace", "ReplStoreTrace.cfg", events, timeout=3000)
     by_id = {s["id"]: s for s in stimuli}
     hit_stash = False
